@@ -110,6 +110,8 @@ type c03World struct {
 	reorgAt   int64 // instant of the first event announcing changed roots (-1: none)
 	done      bool
 	jobsAtEnd []string
+	attestDur int64               // how long the attester stand-in takes (0: returns at once)
+	inflight  map[phase0.Slot]int // attestations being carried out by the stand-in
 }
 
 func (w *c03World) now() int64 { return mc.Now() }
@@ -151,6 +153,14 @@ func (w *c03World) Attest(_ context.Context, duty *attester.Duty) ([]*phase0.Att
 	c := c03Call{at: w.now(), slot: duty.Slot(), vals: append([]phase0.ValidatorIndex(nil), duty.ValidatorIndices()...)}
 	sort.Slice(c.vals, func(i, j int) bool { return c.vals[i] < c.vals[j] })
 	w.attests = append(w.attests, c)
+	if w.attestDur > 0 {
+		if w.inflight == nil {
+			w.inflight = map[phase0.Slot]int{}
+		}
+		w.inflight[duty.Slot()]++
+		mc.Sleep(w.attestDur)
+		w.inflight[duty.Slot()]--
+	}
 	return nil, nil
 }
 
